@@ -59,31 +59,25 @@ theorem main (t : List Char) (hwf : CLexRef.wf t = true) (hk1 : CLexRef.k1 t = f
 
 
 /-- **C05.directive_extent.**  For every well-formed text outside F-C05-1/2 the logical lines yielded by
-    `c_file_source` are exactly the specification's logical lines that hold code: same order, a line is
-    `CPP_DIRECTIVE` iff its first surviving non-white character is `#`, and its `lines` are exactly the
-    counted physical lines among all the physical lines it spans (continuation lines included). -/
+    `c_file_source`, as `parse_file` classifies them (`FileParser.is_directive`), are exactly the specification's
+    logical lines that hold code: same order, a line is a directive iff its first token is `#` (its first surviving
+    non-white character is `#` and the next character is not another `#`: `##` is a different token), and its
+    `lines` are exactly the counted physical lines among all the physical lines it spans (continuation lines
+    included). -/
 theorem directive_extent (t : List Char) (hwf : CLexRef.wf t = true) (hk1 : CLexRef.k1 t = false)
     (hk2 : CLexRef.k2 t = false) : CClean.logical t = .ok (CLexRef.logical t) := by
   obtain ⟨scs, f, hscan⟩ := text_facts (rawLines t) hwf hk1 hk2
-  obtain ⟨herr, hall⟩ := model_eq_expect (rawLines t) scs f (rawLinesAux_nlOK t [])
+  obtain ⟨herr, _⟩ := model_eq_expect (rawLines t) scs f (rawLinesAux_nlOK t [])
   unfold CClean.logical cFileSource
   rw [herr]
   simp only [Except.ok.injEq]
-  have h1 : ((cFileSourceLines (rawLines t)).all.filter LLine.yielded).map (fun l => (l.cat == Cat.cppDirective, l.lines))
-      = (((cFileSourceLines (rawLines t)).all.map LLine.sum).filter fun x => x.2.2.2 != Cat.blank).map sumPair := by
-    rw [List.filter_map, List.map_map]
-    rfl
-  rw [h1, hall]
+  rw [logical_eq (rawLines t) scs f (rawLinesAux_nlOK t [])]
   unfold CLexRef.logical CLexRef.result resultLines
   rw [hscan]
-  have h2 := spec_expect (rawLines t).length (rawLines t) {} 0 scs [] none [] 1 f.scan f.k1 f.plain (by omega)
-    (by simp) (by simp) (by simp [firstNonWhite]) (by simp [linesOf_nil]) (by simp)
-  simp only [logicalOf]
-  exact h2.symm
 
-/-- what the property says about the node list and the file total (`k3` = F-C05-3) -/
+/-- what the property says about the node list and the file total -/
 def NodesEq : Prop :=
-  ∀ t : List Char, CLexRef.wf t = true → CLexRef.k1 t = false → CLexRef.k2 t = false → CLexRef.k3 t = false →
+  ∀ t : List Char, CLexRef.wf t = true → CLexRef.k1 t = false → CLexRef.k2 t = false →
     ∃ r, parseFile t = .ok r ∧
       r.nodes.map (fun nd => (nd.kind == NKind.directive, nd.lines)) = CLexRef.nodes t ∧
       r.totalSloc = (CLexRef.countedLines t).length ∧ ∀ nd ∈ r.nodes, nd.numLines = nd.lines.length ∧ 1 ≤ nd.numLines
@@ -172,25 +166,27 @@ theorem nodes_of_ok (t : List Char) (hwf : CLexRef.wf t = true) (hk1 : CLexRef.k
         | cons a b => simp
 
 
-/-- **C05.nodes** (= `NodesEq`).  For every well-formed text outside the three recorded finding classes,
-    `parse_file` does not raise and its node list, `num_lines` and `total_sloc` are the specification's. -/
+/-- **C05.nodes** (= `NodesEq`).  For every well-formed text outside the two recorded finding classes F-C05-1/2,
+    `parse_file` does not raise and its node list, `num_lines` and `total_sloc` are the specification's
+    (no exclusion is left for lines starting with `##`: F-C05-3 is repaired, `hashhash_fixed`). -/
 theorem nodes : NodesEq := by
-  intro t hwf hk1 hk2 hk3
+  intro t hwf hk1 hk2
   obtain ⟨scs, f, hscan⟩ := text_facts (rawLines t) hwf hk1 hk2
   obtain ⟨herr, _⟩ := model_eq_expect (rawLines t) scs f (rawLinesAux_nlOK t [])
-  have hk3' : (segments (scs.flatMap (·.out)) []).any CLexRef.startsHashHash = false := by
-    unfold CLexRef.k3 CLexRef.result resultLines at hk3
-    rw [hscan] at hk3
-    exact hk3
-  have hno := no_hashHash (rawLines t) scs f (rawLinesAux_nlOK t []) hk3'
   obtain ⟨ns, hns⟩ := groupLoop_ok ((cFileSource t).all.filter LLine.yielded) none
-    (fun l hl => hno l (List.mem_filter.mp hl).1)
   have hp : parseFile t = .ok ⟨ns, (ns.map (·.numLines)).sum⟩ := by
     unfold parseFile
     simp only [hns]
     unfold cFileSource
     rw [herr]
   exact ⟨_, hp, nodes_of_ok t hwf hk1 hk2 _ hp⟩
+
+/-- **C05.parse_total.**  On **every** text (well-formed or not) `parse_file` raises only what `c_file_source`
+    raises: the `LineGroup` folding and the directive test raise nothing (before the repair of F-C05-3 a logical
+    line starting with `##` raised `ParseError("Not a directive.")` for the whole file). -/
+theorem parse_total (t : List Char) (h : (cFileSource t).err = none) : ∃ r, parseFile t = .ok r := by
+  obtain ⟨ns, hns⟩ := groupLoop_ok ((cFileSource t).all.filter LLine.yielded) none
+  exact ⟨⟨ns, (ns.map (·.numLines)).sum⟩, by unfold parseFile; simp only [hns, h]⟩
 
 /-- **C05.partition.**  For **every** text on which `parse_file` does not raise (well-formed or not):
     concatenating `node.lines` over the node list gives a strictly increasing list — no physical line is
@@ -252,10 +248,26 @@ def w2 : List Char := ['"', 'a', '\\', '\n', ' ', ' ', '\\', '\n', 'b', '"', '\n
 theorem witness_k2 : CLexRef.wf w2 = true ∧ CLexRef.k2 w2 = true ∧
     (CClean.countedLines w2).toOption = some [1, 2, 3] ∧ CLexRef.countedLines w2 = [1, 3] := by decide
 
-/-- F-C05-3: a logical line starting with `##` makes `parse_file` raise ParseError("Not a directive.") -/
-def w3 : List Char := ['#', '#', ' ', 'a', '\n']
-theorem witness_k3 : CLexRef.wf w3 = true ∧ CLexRef.k1 w3 = false ∧ CLexRef.k2 w3 = false ∧ CLexRef.k3 w3 = true ∧
-    (parseFile w3).toOption = none ∧ CLexRef.nodes w3 = [(true, [1])] := by decide
+/-- F-C05-3 (repaired): a logical line whose first token is `##` is code, not a directive, and `parse_file` does not
+    raise: `x` / `## a` / ` #\` + `# b` (spliced to ` ## b`) / `# ## c` (first token `#`: a directive) / `y` -/
+def w3 : List Char := "x\n## a\n #\\\n# b\n# ## c\ny\n".toList
+theorem hashhash_fixed : CLexRef.wf w3 = true ∧ CLexRef.k1 w3 = false ∧ CLexRef.k2 w3 = false ∧
+    (parseFile w3).toOption.map (fun r => r.nodes.map fun nd => (nd.kind == NKind.directive, nd.lines)) =
+      some [(false, [1, 2, 3, 4]), (true, [5]), (false, [6])] ∧
+    CLexRef.nodes w3 = [(false, [1, 2, 3, 4]), (true, [5]), (false, [6])] := by decide
+
+/-- F-C05-4 (recorded, judged by `g++ -E` in the harness stream `rawstr`): C++11 raw string literals are outside the C
+    reading of phases 2–3 that both the specification and `c_cleaner` implement.
+    `w4` = `const char* s = R"x(a"b)x"; /* c1` / ` c2` / ` c3 */` / `int z;` is *excluded* by `wf` (the `"` after `x;`
+    opens a literal that is "unterminated" at the newline) — the cleaner counts lines 1–4, a C++ compiler sees code on
+    1 and 4 only.  `w5` = `R"(a" /* )";` / `int y; /* */` is even *accepted* by `wf`, and specification and cleaner agree
+    on [1] although line 2 holds code in C++.  The theorems of this file say nothing wrong — they are about the C
+    reading — but the gap is now visible instead of silent. -/
+def w4 : List Char := "const char* s = R\"x(a\"b)x\"; /* c1\n c2\n c3 */\nint z;\n".toList
+def w5 : List Char := "R\"(a\" /* )\";\nint y; /* */\n".toList
+theorem rawstring_gap : CLexRef.wf w4 = false ∧ (CClean.countedLines w4).toOption = some [1, 2, 3, 4] ∧
+    CLexRef.wf w5 = true ∧ CLexRef.k1 w5 = false ∧ CLexRef.k2 w5 = false ∧
+    (CClean.countedLines w5).toOption = some [1] ∧ CLexRef.countedLines w5 = [1] := by decide
 
 /-- on an ill-formed text (stray backslash) `parse_file` can build a code node without any counted line:
     `#x\\` / `` / ` \` / ` ` -/
@@ -269,7 +281,7 @@ theorem empty_node_illformed : CLexRef.wf w0 = false ∧
 def ex1 : List Char :=
   "a /* c */ b\n#define X \\\n 1 // x\n\"/*\" '\\''\n/* m\n*/ z\n".toList
 
-example : CLexRef.wf ex1 = true ∧ CLexRef.k1 ex1 = false ∧ CLexRef.k2 ex1 = false ∧ CLexRef.k3 ex1 = false := by decide
+example : CLexRef.wf ex1 = true ∧ CLexRef.k1 ex1 = false ∧ CLexRef.k2 ex1 = false := by decide
 example : CLexRef.countedLines ex1 = [1, 2, 3, 4, 6] ∧
     CLexRef.logical ex1 = [(false, [1]), (true, [2, 3]), (false, [4]), (false, [6])] := by decide
 example : (parseFile ex1).toOption.map (fun r => (r.totalSloc, r.nodes.length)) = some (5, 3) := by decide
